@@ -469,3 +469,221 @@ def short(name):
         n = n.lstrip("<")[len("functions::"):]
         return n.split("::get::")[0]
     return n
+
+
+# ------------------------------------------------------------------ number universe (C10 / C07 / C19)
+
+def _num_variants(lib):
+    a = lib.adts.get("json_value::NumberValue")
+    return {v["name"]: i for i, v in enumerate(a["variants"])} if a else None
+
+
+def _universe():
+    """(label, variant, payload, exact value as Fraction, canonical?) - canonical = a representation the parser and
+    From<f64> can produce for that value (C10-FLOAT-CTOR / C10-WINDOW / C19-INT-CTOR establish that only these arise;
+    the bare literal -0 is excluded by the property itself)."""
+    from fractions import Fraction
+    out = []
+    for n in (0, 1, 2, 10, 2 ** 53 - 1, 2 ** 53, 2 ** 53 + 1, 2 ** 63 - 1, 2 ** 63, 2 ** 64 - 1):
+        out.append(("Positive(%d)" % n, "Positive", ("i", n), Fraction(n), True))
+    for n in (-1, -2, -10, -(2 ** 53) + 1, -(2 ** 53), -(2 ** 53) - 1, -(2 ** 63)):
+        out.append(("Negative(%d)" % n, "Negative", ("i", n), Fraction(n), True))
+    out.append(("Negative(0)", "Negative", ("i", 0), Fraction(0), False))
+    for x in (0.5, -0.5, 1.5, 2.5e-10, 1e300, -1e300, 5e-324, 1.7976931348623157e308, 2.0 ** 64, 2.0 ** 70, -(2.0 ** 70),
+              4503599627370496.5):
+        out.append(("Float(%r)" % x, "Float", ("f", x), Fraction(x), True))
+    for x in (0.0, 1.0, -1.0, 2.0 ** 52):
+        out.append(("Float(%r) [non-canonical]" % x, "Float", ("f", x), Fraction(x), False))
+    return out
+
+
+def _interop(u):
+    """The property's interoperable range: integers below 2^53 in magnitude, or non-integral numbers."""
+    x = u[3]
+    return x.denominator != 1 or abs(x) < 2 ** 53
+
+
+def _nv(vs, variant, payload):
+    return ("adt", vs[variant], (payload,))
+
+
+def num_eq(rep, ctx, rid="C10-NUM-EQ", integers_only=False):
+    lib = ctx.lib
+    what = ("every pair of 64-bit integer representations (0, 1, 2^53-1, 2^53, 2^53+1, 2^63-1, 2^63, 2^64-1, -1 .. "
+            "-2^63, and the spelling Negative(0))" if integers_only else
+            "every pair of representations in the interoperable range (integers below 2^53 in magnitude, non-integral "
+            "doubles incl. 5e-324, and the non-canonical spellings Float(0.0), Float(1.0), Float(-1.0), Float(2^52), "
+            "Negative(0))")
+    r = rep.rule(rid, "NumberValue::eq, evaluated on %s, answers exactly whether the two denote the same number - "
+                 "integers are compared as integers, never through a double" % what, floor=100,
+                 analysis="A5 partial evaluation of the body of PartialEq for NumberValue with both operands seeded; "
+                          "oracle: exact rational equality")
+    b = lib.bodies.get("<json_value::NumberValue as std::cmp::PartialEq>::eq")
+    vs = _num_variants(lib)
+    if b is None or vs is None:
+        r.missing("PartialEq for NumberValue")
+        return
+    U = [u for u in _universe() if (u[1] != "Float" if integers_only else _interop(u))]
+    bad = []
+    n = 0
+    for la, va, pa, xa, _ in U:
+        for lb, vb, pb, xb, _ in U:
+            env = {1: ("rv", _nv(vs, va, pa)), 2: ("rv", _nv(vs, vb, pb))}
+            res = PE(b, None, max_states=4000).run(env=env)
+            vals = {v for _, v in res.returns}
+            n += 1
+            want = ("b", xa == xb)
+            if vals != {want}:
+                bad.append((la, lb, sorted(map(str, vals)), want[1]))
+    r.extra = n - 1
+    if bad:
+        la, lb, got, want = bad[0]
+        r.bad("eq/universe", "(= %s %s) is %s, the numbers are %s (%d of %d pairs wrong or undecided - an undecided pair "
+              "means eq delegates to code outside its own body, e.g. a comparison through f64)"
+              % (la, lb, got, "equal" if want else "different", len(bad), n), b.where())
+    else:
+        r.ok("eq/universe", "%d pairs agree with exact equality" % n, b.where())
+
+
+def _hash_feed(lib, hb, val):
+    feed = []
+
+    def model(c, av, envv, pe):
+        cal = c.callee or ""
+        if cal.startswith("std::hash::Hasher::write_"):
+            feed.append((cal.rsplit("::", 1)[-1], pe._deref_all(envv, av[1]) if len(av) > 1 else None))
+            return (True, ("adt", 0, ()))
+        return None
+    res = PE(hb, model, max_states=4000).run(env={1: ("rv", val)})
+    if res.forks:
+        return None
+    return tuple(feed)
+
+
+def num_hash(rep, ctx, rid="C10-NUM-HASH"):
+    lib = ctx.lib
+    r = rep.rule(rid, "Hash for JsonValue is coherent with = on numbers: two canonical representations that are "
+                 "equal feed the hasher the same sequence, and every number feeds a tag plus its payload", floor=300,
+                 analysis="A5 partial evaluation of Hash::hash with the value seeded, recording the Hasher::write_* "
+                          "calls; joined with the exact-equality oracle over the canonical part of the universe")
+    hb = lib.bodies.get("<json_value::JsonValue as std::hash::Hash>::hash")
+    vs = _num_variants(lib)
+    ja = lib.adts.get("json_value::JsonValue")
+    if hb is None or vs is None or not ja:
+        r.missing("Hash for JsonValue")
+        return
+    jn = [v["name"] for v in ja["variants"]].index("Number")
+    U = [u for u in _universe() if u[4]]
+    feeds = {}
+    for la, va, pa, xa, _ in U:
+        f = _hash_feed(lib, hb, ("adt", jn, (_nv(vs, va, pa),)))
+        feeds[la] = f
+    undecided = [l for l, f in feeds.items() if f is None or len(f) < 2 or any(x[1] is None for x in f)]
+    if undecided:
+        r.bad("hash/feed", "what is hashed for %s is not a tag followed by the payload (or depends on something else): %s"
+              % (undecided[0], feeds[undecided[0]]), hb.where())
+        return
+    bad = []
+    n = 0
+    for la, va, pa, xa, _ in U:
+        for lb, vb, pb, xb, _ in U:
+            n += 1
+            if xa == xb and feeds[la] != feeds[lb]:
+                bad.append((la, lb))
+            if xa != xb and feeds[la] == feeds[lb]:
+                pass   # a collision is allowed (only wasteful)
+    r.extra = n - 1
+    if bad:
+        r.bad("hash/coherent", "%s and %s are equal but feed the hasher %s and %s: --unique keeps both"
+              % (bad[0][0], bad[0][1], feeds[bad[0][0]], feeds[bad[0][1]]), hb.where())
+    else:
+        r.ok("hash/coherent", "%d pairs: equal canonical numbers hash alike; tags distinguish the three "
+             "representations" % n, hb.where())
+    # other kinds: a distinct tag each
+    tags = {}
+    for name, payload in (("Null", ()), ("Boolean", (("b", True),)), ("Boolean", (("b", False),))):
+        vi = [v["name"] for v in ja["variants"]].index(name)
+        f = _hash_feed(lib, hb, ("adt", vi, payload))
+        tags["%s%s" % (name, payload)] = f
+    distinct = len({f for f in tags.values()}) == len(tags) and all(f for f in tags.values())
+    numtags = {f[0] for f in feeds.values()}
+    if distinct and not ({f[0] for f in tags.values() if f} & numtags):
+        r.ok("hash/tags", "null, true, false and the three number representations have distinct tags", hb.where(),
+             nontrivial=False)
+    else:
+        r.bad("hash/tags", "null / true / false / numbers do not have distinct hash tags: %s" % tags, hb.where())
+
+
+def num_order(rep, ctx, rid="C07-NUM-ORDER"):
+    lib = ctx.lib
+    r = rep.rule(rid, "Ord for NumberValue, evaluated on every pair of the universe restricted to the interoperable "
+                 "range (|n| < 2^53 or non-integral), orders by numeric value, is antisymmetric, and answers Equal "
+                 "exactly when = does; partial_cmp is Some(cmp)", floor=200,
+                 analysis="A5 partial evaluation of Ord::cmp with both operands seeded, the conversion impls it calls "
+                          "evaluated the same way; oracle: exact rational order")
+    from fractions import Fraction
+    b = lib.bodies.get("<json_value::NumberValue as std::cmp::Ord>::cmp")
+    vs = _num_variants(lib)
+    if b is None or vs is None:
+        r.missing("Ord for NumberValue")
+        return
+    cg = ctx.cg
+    U = [u for u in _universe() if _interop(u)]
+
+    def model(c, av, envv, pe):
+        tgt = cg.forwarded(c)
+        name = tgt or (c.name if (c.name or "") in lib.bodies and not c.is_dyn() else None)
+        if name and name in lib.bodies and name != b.name:
+            sub = PE(lib.bodies[name], model, max_states=4000)
+            env2 = {}
+            for i, v in enumerate(av):
+                if v is None:
+                    continue
+                if v[0] == "ref":
+                    inner = pe._read(envv, v[1], list(v[2]))
+                    v = ("rv", inner) if inner is not None else None
+                if v is not None:
+                    env2[i + 1] = v
+            rr = sub.run(env=env2)
+            vals = {v for _, v in rr.returns}
+            if len(vals) == 1:
+                return (True, next(iter(vals)))
+            return (True, None)
+        return None
+    bad = []
+    n = 0
+    sign = {0: -1, 1: 0, 2: 1}
+    table = {}
+    for la, va, pa, xa, _ in U:
+        for lb, vb, pb, xb, _ in U:
+            env = {1: ("rv", _nv(vs, va, pa)), 2: ("rv", _nv(vs, vb, pb))}
+            res = PE(b, model, max_states=4000).run(env=env)
+            vals = {v for _, v in res.returns}
+            n += 1
+            want = (xa > xb) - (xa < xb)
+            got = None
+            if len(vals) == 1:
+                v = next(iter(vals))
+                if v is not None and v[0] == "adt" and v[1] in sign:
+                    got = sign[v[1]]
+            # -0.0 vs 0.0 style ties are outside the universe (no signed zeros in it)
+            table[(la, lb)] = got
+            if got != want:
+                bad.append((la, lb, got, want))
+    r.extra = n - 1
+    if bad:
+        la, lb, got, want = bad[0]
+        r.bad("cmp/universe", "cmp(%s, %s) is %s, by value it is %s (%d of %d pairs wrong or undecided)"
+              % (la, lb, got, want, len(bad), n), b.where())
+    else:
+        r.ok("cmp/universe", "%d pairs ordered by exact value (hence antisymmetric, transitive, Equal iff =)" % n,
+             b.where())
+    pb_ = lib.bodies.get("<json_value::NumberValue as std::cmp::PartialOrd>::partial_cmp")
+    if pb_ is not None:
+        calls = [c for c in pb_.calls if (c.name or "") == b.name or (c.callee or "") == "std::cmp::Ord::cmp"]
+        aggs = [rv for bb, idx, place, rv, _ in pb_.assignments() if rv["k"] == "agg" and rv.get("variant_name") == "Some"]
+        if len(calls) == 1 and aggs and len(pb_.calls) == 1:
+            r.ok("partial_cmp", "Some(self.cmp(other))", pb_.where(), nontrivial=False)
+        else:
+            r.bad("partial_cmp", "partial_cmp is not Some(self.cmp(other)): < <= > >= could disagree with the sort order",
+                  pb_.where())
